@@ -1354,6 +1354,18 @@ func (fc *FnCtx) modTargets(st *State, nodes ...ast.Node) []modTarget {
 				}
 			case *ast.IncDecStmt:
 				addStore(x.X)
+			case *ast.UnaryExpr:
+				if x.Op == token.ARROW { // blocking receive: other goroutines may have closed channels meanwhile
+					set[modTarget{"$chanclosed", ""}] = true
+				}
+			case *ast.SelectStmt:
+				set[modTarget{"$chanclosed", ""}] = true
+			case *ast.RangeStmt:
+				if _, isChan := fc.typeOf(x.X).Underlying().(*types.Chan); isChan {
+					set[modTarget{"$chanclosed", ""}] = true
+				}
+			case *ast.GoStmt:
+				set[modTarget{"$spawns", ""}] = true
 			case *ast.CallExpr:
 				for _, mt := range fc.callModTargets(st, x, stableBase) {
 					set[mt] = true
